@@ -78,7 +78,7 @@ def r1_writers(rep, ctx):
             else:
                 rep.bad("C13.R1", key, "%s of a value object is stored by %s%s: an operation can change an existing object"
                         % (x.attr, fn.qual.split(".", 2)[-1], "" if is_self else " through a non-self receiver"), node=st, fn=fn)
-    rep.floor("C13.R1", "stores to value-object state", n, 12)
+    rep.floor("C13.R1", "stores to value-object state", n, 9)
 
 
 def _protected(atoms):
@@ -116,8 +116,8 @@ def r2_sinks(rep, ctx):
             what = "mutates %s, which may be %s" % (sk.get("target"), prov.fmt_atoms(set(prot)))
         rep.bad("C13.R2", key, "%s %s: the stored data of an operand changes (results must be built on a fresh copy)" % (fn.qual.split(".", 2)[-1], what), node=sk["node"], fn=fn,
                 facts={"atoms": prov.fmt_atoms(set(sk["atoms"]))})
-    rep.floor("C13.R2", "mutation sinks examined", n, 60)
-    rep.floor("C13.R2", "sinks on fresh objects", n_fresh, 30)
+    rep.floor("C13.R2", "mutation sinks examined", n, 44)
+    rep.floor("C13.R2", "sinks on fresh objects", n_fresh, 26)
     # the copies the current code relies on (named instances: dropping one is what R2 exists to catch)
     ci = m.method("FixedArray", "ChangingIndex")
     v = None
@@ -148,7 +148,7 @@ def r3_copies(rep, ctx):
                 return isinstance(v, ast.Call) and isinstance(v.func, ast.Attribute) and isinstance(v.func.value, ast.Name) and v.func.value.id == selfn and v.func.attr in ("Copy", "CreateCopyInstance") and not v.args
             ok = bool(rets) and all(is_self(r) for r in rets)
             rep.check(ok, "C13.R3", "%s.%s:returns-self" % (cname, meth), "%s returns the object itself" % meth, "%s.%s does not return the object itself on every path" % (cname, meth), fn=fn)
-    rep.floor("C13.R3", "copy hooks", n, 4)
+    rep.floor("C13.R3", "copy hooks", n, 2)
     # __reduce__
     for cname, want in (("Scalar", ["_quantity", "value", None]), ("FixedArray", ["_dimension", "_quantity", "values", None])):
         fn = m.own_method(cname, "__reduce__")
